@@ -968,3 +968,32 @@ def numeric_literal_integers(bi: int, d: int, neg: bool, form: int) -> bool:
         n = -n
     expr = pick(NUM_FORMS, form).format(str(n), str(n + 1))
     return check(expr)
+
+
+
+@condition(timeout={"quick": 60, "thorough": 120}, functions=[_F + "Format (rendering of non-string arguments)"])
+def Format_json_scalars(k1: int, k2: int, byref: bool) -> bool:
+    """
+    requires: 0 <= k1 < 6 and 0 <= k2 < 6
+    ensures: _
+    """
+    vals = [True, False, None, 0, 1.5, "s"]
+    lits = ["true", "false", "null", "0", "1.5", "'s'"]
+    if byref:
+        return check("States.Format('{}-{}', $.a, $.b)", {"a": pick(vals, k1), "b": pick(vals, k2)})
+    return check("States.Format('{}-{}', " + pick(lits, k1) + ", " + pick(lits, k2) + ")")
+
+
+NUM_TOKENS = ["nan", "NaN", "inf", "-inf", "Infinity", "1_000", "1_0", "+1", ".5", "1.", "-0", "00", "01", "1e", "0x10", "1.5.2", "--1", chr(0xff11) + chr(0xff12)]
+
+
+@condition(timeout={"quick": 120, "thorough": 300}, functions=[_ARGS + " (numeric literals)", _F + "Array", _F + "MathAdd", _F + "JsonToString"],
+           outside=["exponent notation (1e5): the States Language does not say whether it is a numeric literal of an intrinsic argument"])
+def numeric_literal_tokens(ti: int, form: int) -> bool:
+    """
+    requires: 0 <= ti < len(NUM_TOKENS) and 0 <= form < 3
+    ensures: _
+    """
+    tok = pick(NUM_TOKENS, ti)
+    expr = pick(["States.Array({0})", "States.MathAdd({0}, 1)", "States.JsonToString(States.Array(1, {0}))"], form).format(tok)
+    return check(expr)
